@@ -20,6 +20,7 @@
 #include <yaclib/coro/on.hpp>
 #include <yaclib/coro/task.hpp>
 #include <yaclib/exe/inline.hpp>
+#include <yaclib/exe/manual.hpp>
 #include <yaclib/exe/strand.hpp>
 #include <yaclib/lazy/make.hpp>
 #include <yaclib/lazy/schedule.hpp>
@@ -31,6 +32,9 @@
 #include <utility>
 #include <variant>
 #include <vector>
+#include <mutex>
+#include <yaclib_std/condition_variable>
+#include <yaclib_std/mutex>
 #include <yaclib_std/thread>
 
 namespace {
@@ -166,8 +170,67 @@ const char* kStartNames[] = {"ToFuture().Get", "ToFuture(e).Get", "Get", "Detach
                              "co_await in a coroutine"};
 
 // executors: index -> what the proxy wraps
-enum Ex : std::uint8_t { kExInline = 0, kExPool = 1, kExStrand = 2, kExStopped = 3, kExPool2 = 4, kExCount = 5 };
-const char* kExNames[] = {"inline", "pool", "strand(pool)", "stopped-inline", "pool2"};
+enum Ex : std::uint8_t { kExInline = 0, kExPool = 1, kExStrand = 2, kExStopped = 3, kExPool2 = 4, kExManual = 5, kExCount = 6 };
+const char* kExNames[] = {"inline", "pool", "strand(pool)", "stopped-inline", "pool2", "manual(drained by its own thread)"};
+
+// ManualExecutor is single-threaded by contract: the client serialises Submit and Drain itself. Here the client is a
+// recursive lock (jobs running inside Drain may submit to the same executor) plus a drainer thread woken per submission.
+struct LockedManual final : yaclib::IExecutor {
+  yaclib::IExecutorPtr manual = yaclib::MakeManual();
+  yaclib_std::recursive_mutex rm;
+  yaclib_std::mutex m;
+  yaclib_std::condition_variable cv;
+  bool pending = false, stop = false;
+  std::uint64_t drained = 0;
+
+  [[nodiscard]] Type Tag() const noexcept final {
+    return manual->Tag();
+  }
+  [[nodiscard]] bool Alive() const noexcept final {
+    return manual->Alive();
+  }
+  void IncRef() noexcept final {
+  }
+  void DecRef() noexcept final {
+  }
+  void Submit(yaclib::Job& job) noexcept final {
+    {
+      std::lock_guard l{rm};
+      manual->Submit(job);
+    }
+    {
+      std::lock_guard l{m};
+      pending = true;
+    }
+    cv.notify_one();
+  }
+  void DrainNow() {
+    std::lock_guard l{rm};
+    drained += static_cast<yaclib::ManualExecutor&>(*manual).Drain();
+  }
+  void DrainLoop() {
+    std::unique_lock l{m};
+    for (;;) {
+      while (!pending && !stop) {
+        cv.wait(l);
+      }
+      if (!pending) {
+        return;
+      }
+      pending = false;
+      l.unlock();
+      DrainNow();
+      l.lock();
+    }
+  }
+  void Stop() {
+    {
+      std::lock_guard l{m};
+      stop = true;
+    }
+    cv.notify_one();
+  }
+};
 
 struct Program {
   bool lazy = false;
@@ -325,12 +388,12 @@ class Case final : public sim::CaseBase {
 
   static std::uint8_t LiveExec(sim::Gen& g, bool wide) {
     static const std::uint8_t narrow[] = {kExInline, kExPool, kExStrand};
-    static const std::uint8_t all[] = {kExInline, kExPool, kExStrand, kExPool2};
-    return wide ? all[g.Draw(4)] : narrow[g.Draw(3)];
+    static const std::uint8_t all[] = {kExInline, kExPool, kExStrand, kExPool2, kExManual};
+    return wide ? all[g.Draw(5)] : narrow[g.Draw(3)];
   }
   static std::uint8_t AnyExec(sim::Gen& g, bool with_stopped) {
-    static const std::uint8_t all[] = {kExInline, kExPool, kExStrand, kExPool2, kExStopped};
-    return all[g.Draw(with_stopped ? 5 : 3)];
+    static const std::uint8_t all[] = {kExInline, kExPool, kExStrand, kExPool2, kExManual, kExStopped};
+    return all[g.Draw(with_stopped ? 6 : 3)];
   }
   static std::uint8_t DrawBeh(sim::Gen& g, Ret r) {
     switch (r) {
@@ -990,14 +1053,19 @@ class Case final : public sim::CaseBase {
     yaclib::FairThreadPool pool{prog.pool_workers};
     yaclib::FairThreadPool pool2{1};
     yaclib::IExecutorPtr strand = yaclib::MakeStrand(&pool);
+    LockedManual manual;
     sim::Proxy px[kExCount] = {{&yaclib::MakeInline(), 1 + kExInline},
                                {&pool, 1 + kExPool},
                                {strand.Get(), 1 + kExStrand},
                                {&yaclib::MakeInline(yaclib::StopTag{}), 1 + kExStopped},
-                               {&pool2, 1 + kExPool2}};
+                               {&pool2, 1 + kExPool2},
+                               {&manual, 1 + kExManual}};
     for (int i = 0; i < kExCount; ++i) {
       proxies[i] = &px[i];
     }
+    yaclib_std::thread drainer{[&manual] {
+      manual.DrainLoop();
+    }};
     if (prog.reject_exec >= 0) {
       px[prog.reject_exec].RejectFrom(prog.reject_from);
     }
@@ -1046,10 +1114,21 @@ class Case final : public sim::CaseBase {
     px[kExPool].NoteStopInvoked();
     px[kExStrand].NoteStopInvoked();
     px[kExPool2].NoteStopInvoked();
+    manual.Stop();
+    drainer.join();
     pool.SoftStop();
     pool.Wait();
     pool2.SoftStop();
     pool2.Wait();
+    const std::uint64_t by_drainer = manual.drained;
+    manual.DrainNow();  // nothing may be left: the drainer was woken for every submission
+    if (manual.drained != by_drainer) {
+      sim::Fail("JOB_LOST", "%llu jobs were still queued in the manual executor after its drainer had been woken for every submission",
+                (unsigned long long)(manual.drained - by_drainer));
+    }
+    if (by_drainer != 0) {
+      SIM_PROBE("manual_executor_ran_jobs");
+    }
     strand = nullptr;
     for (int i = 0; i < kExCount; ++i) {
       px[i].CheckQuiescent("pipeline");
